@@ -283,7 +283,7 @@ class C09Engine(Engine):
                 self.prior_sweep.append((hs, p))
 
     def n_runs(self, tier):
-        return {"quick": 1500, "thorough": 150000}[tier]
+        return {"quick": 1500, "thorough": 60000}[tier]
 
     def rule(self):
         return ("Each run is a history of 3-9 public-API operations on 1-3 tape-generated tree sequences: "
